@@ -1,7 +1,7 @@
 (* C19 - helper scaling and invariance laws: structural part (for every libm).  Pinned theorems only. *)
 From Coq Require Import ZArith List Bool Reals Lra.
 From Flocq Require Import Core BinarySingleNaN.
-Require Import GV.FloatBase GV.FloatLemmas GV.AngleM GV.AngleProofs GV.GeonumM GV.GeonumProofs GV.TraitsM GV.TraitsProofs.
+Require Import GV.FloatBase GV.FloatLemmas GV.AngleM GV.AngleProofs GV.GeonumM GV.GeonumProofs GV.TraitsM GV.TraitsProofs GV.BoundProofs.
 Import ListNotations.
 Open Scope R_scope.
 
@@ -36,3 +36,13 @@ Theorem C19_magnify_intensity : forall (L : libm) g m,
   mag (magnify L g m) = fmul (mag g) (fdiv one (fmul (mag m) (mag m))).
 Proof. reflexivity. Qed.
 Print Assumptions C19_magnify_intensity.
+
+(* |tanh output| <= magnitude, under the range hypothesis |tanh| <= 1 (finite) *)
+Theorem C19_tanh_bound : forall (L : libm) g, tanh_range L -> fin (mag g) -> Rabs (R_ (mag g)) <= bpow radix2 1000 ->
+  Rabs (R_ (mag (activate L g Tanh))) <= Rabs (R_ (mag g)).
+Proof. exact tanh_activation_bound. Qed.
+Print Assumptions C19_tanh_bound.
+
+Theorem C19_range_hyps_inhabited : exists L, cos_range L /\ tanh_range L.
+Proof. exact range_hyps_inhabited. Qed.
+Print Assumptions C19_range_hyps_inhabited.
